@@ -45,6 +45,7 @@ ASSUMPTIONS = [
     "macros called in a native template return the native value of their body (repo test test_macro)",
     "the value of super() / self.block() is the native value of that block's chunks (repo test test_block: self.b() == 11); a block placed in a layout contributes its chunks, not its joined value, to the template's chunk list",
     "template text avoids \\r and delimiter starts; keep_trailing_newline=True so text is emitted verbatim (whitespace handling is C11/C12)",
+    "native environments created with autoescape=True are judged only where HTML-escaping cannot matter (single non-string value, or text without & < > ' \"; no macros / block references, whose values are wrapped in Markup under autoescape)",
     "values compare by exact type and value (floats by repr); a single non-string run-time value supplied through the context must come back as the identical object",
 ]
 
@@ -526,6 +527,7 @@ def check_case(case):
             templates, main = build_templates(case)
             src = templates
             ref_labels = set()
+            ae_judged = False  # block references wrap their value in Markup under autoescape
             exp, identity = ref_inherit(case, data, info, ref_labels)
             pieces = []
         else:
@@ -535,7 +537,15 @@ def check_case(case):
             if not need <= set(data) or any(k in ("ident", "it") or k.startswith("m") and k[1:].isdigit() for k in data):
                 raise core.Discard()
             src = build_source(pieces)
-            exp, identity = ref_concat(ref_pieces(pieces, data, None, info), info)
+            vals = ref_pieces(pieces, data, None, info)
+            exp, identity = ref_concat(vals, info)
+            kinds0 = set()
+            _kinds(pieces, kinds0)
+            # autoescape=True native environments: judged only where the expectation cannot depend on whether text is
+            # HTML-escaped (undocumented for native rendering): the single non-string value, or text without & < > ' "
+            # and no macro (a macro's return value is wrapped in Markup under autoescape)
+            ae_judged = "macro" not in kinds0 and (
+                info[-1] in ("single_nonstr", "empty") or not any(ch in str(v) for v, _ in vals for ch in "&<>'\""))
         top = info[-1]
         labels = {"top_" + top}
         labels.update(("blockref_" if inherit else "macro_") + x for x in info[:-1])
@@ -544,15 +554,20 @@ def check_case(case):
         for cfg in case.get("configs", ALL_CONFIGS):
             envk, mode = cfg
             loader = st["DictLoader"](dict(templates)) if inherit else None
-            if envk == "sync":
-                env = st["Native"](keep_trailing_newline=True, loader=loader)
-            elif envk == "async":
-                env = st["Native"](keep_trailing_newline=True, enable_async=True, loader=loader)
-            elif envk == "sandbox":
-                env = st["SandNative"](keep_trailing_newline=True, loader=loader)
+            ae = envk.endswith("_ae")
+            base = envk[:-3] if ae else envk
+            if ae and not ae_judged:
+                labels.add("autoescape_config_not_judged")
+                continue
+            if base == "sync":
+                env = st["Native"](keep_trailing_newline=True, loader=loader, autoescape=ae)
+            elif base == "async":
+                env = st["Native"](keep_trailing_newline=True, enable_async=True, loader=loader, autoescape=ae)
+            elif base == "sandbox":
+                env = st["SandNative"](keep_trailing_newline=True, loader=loader, autoescape=ae)
             else:
                 raise core.HarnessError("bad env %r" % (envk,))
-            if mode == "render_async" and envk != "async":
+            if mode == "render_async" and base != "async":
                 raise core.Discard()
             env.globals["ident"] = ident
             env.filters["ident"] = ident
@@ -633,6 +648,8 @@ FIXED_SINGLES = [
     1.0, "", "1", " 1", [], [1], {"$": "tuple", "v": []}, {"$": "dict", "v": []}, {"$": "set", "v": []}, {"$": "frozenset", "v": [1]},
     {"$": "complex", "v": ["1.0", "2.0"]}, {"$": "ellipsis"}, 10**25, [{"$": "obj", "s": "q"}],
 ]
+FIXED_CONSTS = [1, 1.5, True, None, "ab", "1", [1, 2], ["ab", 1], {"$": "tuple", "v": ["x", "y"]}, {"$": "dict", "v": [["k", "v"]]},
+                {"$": "dict", "v": [[1, ["a", None]]]}, [], "a b", [[1], ["a"]]]
 _CHARS = "[](){},:'\" 1a-+.*#\\\n\tej_0bx%"
 VAR_NAMES = ["v0", "v1", "v2", "v3", "v4", "v5"]
 
@@ -671,6 +688,15 @@ def _wrap_expr(draw, st, e):
     for _ in range(draw(st.sampled_from([0, 0, 0, 1, 1, 2]))):
         e = {"k": draw(st.sampled_from(["call", "filter"])), "e": e}
     return e
+
+
+AE_CONFIGS = [["sync_ae", "render"], ["async_ae", "render"], ["async_ae", "render_async"], ["sandbox_ae", "render"]]
+
+
+def _configs(draw, st):
+    """The four standard configurations, plus (every second case) one native environment created with autoescape=True."""
+    extra = draw(st.sampled_from([None, None] + AE_CONFIGS))
+    return ALL_CONFIGS + ([extra] if extra else [])
 
 
 class _Names:
@@ -729,7 +755,7 @@ def case_strategy(size):
         elif kind == "it":
             v = draw(S["anyval"])
             p = {"t": "for", "v": names.new([v]), "body": [{"t": "out", "e": _wrap_expr(draw, st, {"k": "it"})}]}
-            return {"pieces": [p], "data": names.data, "configs": ALL_CONFIGS}
+            return {"pieces": [p], "data": names.data, "configs": _configs(draw, st)}
         elif kind == "const":
             v = draw(S["literal"])
             if jinja_lit(dec(v)) is None:
@@ -741,7 +767,7 @@ def case_strategy(size):
         pieces = [piece]
         if draw(st.integers(0, 9)) == 0:  # an empty second output: no longer "the only node"
             pieces.append({"t": "out", "e": {"k": "var", "n": names.new("")}})
-        return {"pieces": pieces, "data": names.data, "configs": ALL_CONFIGS}
+        return {"pieces": pieces, "data": names.data, "configs": _configs(draw, st)}
 
     @st.composite
     def cut_literal(draw):
@@ -798,7 +824,7 @@ def case_strategy(size):
                 piece["e"] = _wrap_expr(draw, st, piece["e"])
             pieces.append(_wrap_piece(draw, st, names, piece))
         # text pieces must not end with "{" before a tag: sanitize() guarantees it
-        return {"pieces": pieces, "data": names.data, "configs": ALL_CONFIGS}
+        return {"pieces": pieces, "data": names.data, "configs": _configs(draw, st)}
 
     @st.composite
     def tree(draw):
@@ -830,7 +856,7 @@ def case_strategy(size):
             # adjacent text pieces would be one template-data node; harmless for the model
             return out
 
-        return {"pieces": pieces(0, False, False), "data": names.data, "configs": ALL_CONFIGS}
+        return {"pieces": pieces(0, False, False), "data": names.data, "configs": _configs(draw, st)}
 
     @st.composite
     def inherit(draw):
@@ -961,6 +987,11 @@ def run_shard(spec, ctx):
                 yield {"pieces": [{"t": "for", "v": "v1", "body": [{"t": "out", "e": {"k": "it"}}]}], "data": {"v1": [v]}, "configs": ALL_CONFIGS}
                 yield {"pieces": [{"t": "for", "v": "v1", "body": [{"t": "out", "e": {"k": "it"}}]}], "data": {"v1": [v, v]}, "configs": ALL_CONFIGS}
 
+            for v in FIXED_CONSTS:
+                for pre in ("", "v="):
+                    pieces = ([{"t": "text", "s": pre}] if pre else []) + [{"t": "out", "e": {"k": "const", "v": v}}]
+                    yield {"pieces": pieces, "data": {}, "configs": ALL_CONFIGS + AE_CONFIGS}
+
         core.enum_shard(fixed(), check_case, ctx, rec=rec)
     # measured: ~5.5 ms CPU per case (4 renders + Hypothesis draw); quick 16 x 5000, thorough 16 x 80000 in batches
     strat = case_strategy(ctx.tier)
@@ -975,6 +1006,6 @@ def floors(total, tier):
     lab = total.labels
     need = {"lit_typeerror": 20, "lit_valueerror": 100, "lit_ok": 500, "lit_syntaxerror": 200, "top_single_nonstr": 300,
             "has_macro": 100, "inherit": 2000, "ref_super": 500, "ref_self": 500, "ref_block_2plus_chunks": 500,
-            "ref_block_nonstring_chunk": 500, "use_for": 50, "use_plus": 50, "use_len": 50, "use_set": 200, "has_for": 100, "has_if": 100, "cfg_async_render": 1000, "cfg_async_render_async": 1000, "cfg_sandbox_render": 1000}
+            "ref_block_nonstring_chunk": 500, "use_for": 50, "use_plus": 50, "use_len": 50, "use_set": 200, "has_for": 100, "has_if": 100, "cfg_async_render": 1000, "cfg_async_render_async": 1000, "cfg_sandbox_render": 1000, "cfg_sync_ae_render": 1000, "cfg_async_ae_render_async": 1000}
     low = ["%s=%d<%d" % (k, lab.get(k, 0), v) for k, v in need.items() if lab.get(k, 0) < v]
     return ", ".join(low) or None
